@@ -156,6 +156,53 @@ def model_compare(rep, spec, path, H, limits):
             rep.tie("level-header model disagrees with the level header", case, {"status": m.get("status"), "why": m.get("why")})
 
 
+def float_tokens(text):
+    """the decimal tokens of a global Header that the reader exposes as floats: time, domain bounds, cell sizes, the time of
+    every level block and the physical bounds of every box"""
+    L = text.split("\n")
+    nf = int(L[1]); nd = int(L[2 + nf]); i = 3 + nf
+    toks = [L[i].split()[0]]; finest = int(L[i + 1]); i += 2
+    toks += L[i].split() + L[i + 1].split(); i += 4          # bounds; then ratio line and domain line
+    i += 1                                                     # steps
+    for _ in range(finest + 1):
+        toks += L[i].split(); i += 1
+    i += 2
+    for _ in range(finest + 1):
+        lv, n, t = L[i].split(); toks.append(t); i += 2
+        for _ in range(int(n) * nd):
+            toks += L[i].split(); i += 1
+        i += 1
+    return toks
+
+
+def floats_are_nearest(rep, case, path):
+    """every float token of the Header against the Lean test `F64.tokenOK` (C02.exposed_float_is_nearest_double): the bits
+    Python reads the token as are the correctly rounded double of the decimal value the token states"""
+    import struct
+    try:
+        toks = float_tokens(open(os.path.join(path, "Header")).read())
+    except (ValueError, IndexError):
+        return
+    toks = sorted(set(toks))
+    bits = []
+    for t in toks:
+        try:
+            bits.append(struct.unpack("<Q", struct.pack("<d", float(t)))[0])
+        except ValueError:
+            bits.append(None)
+    keep = [(t, b) for t, b in zip(toks, bits) if b is not None]
+    if not keep:
+        return
+    m = leanio.driver([{"op": "float_tokens", "tokens": [t for t, _ in keep], "bits": [b for _, b in keep]}])[0]
+    vs = m.get("verdicts", [])
+    bad = [t for (t, _), v in zip(keep, vs) if v == "not-nearest"]
+    if bad or len(vs) != len(keep):
+        rep.tie(f"float tokens {bad[:4]} of the Header: the double Python reads is not the correctly rounded value by the Lean test F64.tokenOK", case, m)
+    else:
+        rep.agree(); rep.count("float-tokens-correctly-rounded", sum(v == "nearest" for v in vs))
+        rep.count("float-tokens-outside-the-modelled-syntax", sum(v == "unsupported" for v in vs))
+
+
 def run_spec(ctx, rep, spec, model, only=None, previous=None):
     path = ctx.newdir("c02_") if spec.get("path_form") != "long" else ctx.long_dir("c02_")
     if previous is not None:
@@ -194,6 +241,7 @@ def run_spec(ctx, rep, spec, model, only=None, previous=None):
         model_compare(rep, spec, path, H, [None] + list(range(finest + 2)))
         # is this header exactly a text of the Lean renderer with the theorem's hypothesis satisfied?  Then
         # `C02.global_header_parse_render` / `_limit` / `_limit_above` speak about this very file
+        floats_are_nearest(rep, {"spec": spec, "mode": {"limit": None}, "model": "header"}, path)
         why = writers.global_header_theorem_applies(path, leanio)
         if why:
             rep.tie(f"generated header: {why}", {"spec": spec, "mode": {"limit": None}, "model": "header"})
